@@ -314,6 +314,48 @@ func TestProp(t *testing.T) {
 	})
 }
 
+// TestBitFlips enumerates EVERY single-bit corruption of every small corpus
+// file (<= VERIF_C09_FLIPMAX bytes, default 160) of every kind and compares
+// the zero-memory baseline with a decode over garbage memory that initialize
+// was told to leave alone: a code path that reads a slot it never wrote is
+// reached by some near-valid input rather than by a valid one.
+func TestBitFlips(t *testing.T) {
+	env, err := stdrun.Get()
+	if err != nil {
+		t.Fatal(err)
+	}
+	defer env.Close()
+	c := stdgen.LoadCorpus(ev.RepoRoot())
+	limit := ev.EnvInt("VERIF_C09_FLIPMAX", 160)
+	shard, nshards := ev.EnvInt("VERIF_SHARD", 0), ev.EnvInt("VERIF_NSHARDS", 1)
+	idx := 0
+	for _, k := range env.Kinds {
+		if k.Iface >= stdh.H32 {
+			continue
+		}
+		for _, f := range c.Small(k.Pkg(), limit) {
+			if shard == 0 {
+				ev.Class("bit-flip-file")
+			}
+			for bit := 0; bit < 8*len(f.Data); bit++ {
+				idx++
+				if idx%nshards != shard {
+					continue
+				}
+				p := append([]byte(nil), f.Data...)
+				p[bit/8] ^= 1 << (bit % 8)
+				prefill := uint8(stdh.PrefillRandom)
+				if bit%3 == 1 {
+					prefill = []uint8{0x40, 0x08, 0x11, 0xFF, 0x80, 0x01}[(bit/3)%6]
+				}
+				cs := Case{Kind: k.Name, Payload: p, Source: fmt.Sprintf("corpus:%s+flip-bit-%d", f.Name, bit), Plan: stdgen.OneShot,
+					Variant: Variant{Name: "leave-uninit-over-garbage", Build: "san", Flags: stdh.FlagLeaveInternalBuffersUninit, Prefill: prefill, Seed: uint64(bit)*2654435761 + 1}}
+				runCase(t, env, cs)
+			}
+		}
+	}
+}
+
 func TestReplay(t *testing.T) {
 	p := ev.ReplayPath()
 	if p == "" {
